@@ -127,7 +127,7 @@ type budgeter interface {
 }
 
 func budgetOf(p core.Property, tier string) (int, int, int) {
-	sec, runs, rt := 45, 1 << 30, 60
+	sec, runs, rt := 45, 1<<30, 60
 	if tier == "thorough" {
 		sec, rt = 1200, 300
 	}
@@ -386,133 +386,162 @@ func runParent(prop, tier string) int {
 	type vrec struct {
 		sig, replay, detail string
 		ops                 int
+		bin                 string
 	}
 	viols := map[string]vrec{}
 	infra := []string{}
-	var wg sync.WaitGroup
-	for w := 0; w < W; w++ {
-		wg.Add(1)
-		go func(w int) {
-			defer wg.Done()
-			start := 0
-			for attempt := 0; attempt < 50; attempt++ {
-				if time.Now().After(deadline) {
-					return
-				}
-				cmd := exec.Command(self, "worker", prop, tier, strconv.Itoa(w), strconv.Itoa(W), strconv.Itoa(start), strconv.FormatInt(deadline.Unix(), 10))
-				cmd.Env = append(os.Environ(), "GOMAXPROCS="+strconv.Itoa(envInt("VERIF_WORKER_PROCS", 2)))
-				stdout, _ := cmd.StdoutPipe()
-				var stderr strings.Builder
-				cmd.Stderr = &stderr
-				if err := cmd.Start(); err != nil {
-					mu.Lock()
-					infra = append(infra, "cannot start worker: "+err.Error())
-					mu.Unlock()
-					return
-				}
-				dec := json.NewDecoder(bufio.NewReaderSize(stdout, 1<<20))
-				lastIdx := -1
-				gotDone := false
-				hang := false
-				for {
-					var m wmsg
-					if err := dec.Decode(&m); err != nil {
-						break
-					}
-					switch m.T {
-					case "start":
-						lastIdx = m.Idx
-					case "viol":
-						mu.Lock()
-						if old, ok := viols[m.Sig]; !ok || m.Ops < old.ops {
-							viols[m.Sig] = vrec{m.Sig, m.Replay, m.Detail, m.Ops}
-						}
-						mu.Unlock()
-					case "hang":
-						hang = true
-						mu.Lock()
-						viols[m.Sig] = vrec{m.Sig, m.Replay, "run exceeded the per-run watchdog", 0}
-						mu.Unlock()
-					case "done":
-						gotDone = true
-						mu.Lock()
-						total.Runs += m.Runs
-						total.Evals += m.Evals
-						total.Steps += m.Steps
-						total.DevOps += m.DevOps
-						total.SimTime += m.SimTime
-						total.Shrinks += m.Shrinks
-						for k, v := range m.Faults {
-							total.Faults[k] += v
-						}
-						for k, v := range m.Probes {
-							total.Probes[k] += v
-						}
-						for k, v := range m.SigCnt {
-							total.SigCnt[k] += v
-						}
-						for _, h := range m.Hashes {
-							hashes[h] = struct{}{}
-						}
-						if len(total.Samples) < 5 {
-							total.Samples = append(total.Samples, m.Samples...)
-						}
-						mu.Unlock()
-					}
-				}
-				err := cmd.Wait()
-				// a worker that died could not remove its scratch directory
-				for _, base := range []string{"/dev/shm", "/var/tmp", os.Getenv("VERIF_SCRATCH")} {
-					if base != "" {
-						_ = os.RemoveAll(filepath.Join(base, fmt.Sprintf("dsim.%d", cmd.Process.Pid)))
-					}
-				}
-				if gotDone && !hang && err == nil {
-					return
-				}
-				if hang {
-					start = lastIdx + W - w
-					continue
-				}
-				// worker died: attribute to lastIdx
-				full := stderr.String()
-				msg := head(full, 1500) + "\n…\n" + tail(full, 500)
-				if lastIdx >= 0 {
-					seed := core.Mix(baseSeed(), core.HashStr(prop), uint64(lastIdx))
-					t := p.Gen(core.NewRng(seed), tier, lastIdx)
-					if mt := core.ReadCaseMarker(markerPath(prop, w)); mt != nil {
-						t = mt
-					}
-					t.Property, t.Seed, t.Tier = prop, seed, tier
-					cls := "killed"
-					if strings.Contains(full, "out of memory") || strings.Contains(full, "cannot allocate memory") {
-						cls = "oom"
-					} else if strings.Contains(full, "stack overflow") || strings.Contains(full, "goroutine stack exceeds") {
-						cls = "stack-overflow"
-					} else if strings.Contains(full, "fatal error") {
-						cls = "fatal"
-					}
-					sig := prop + ".process-death|" + cls + "|" + locusFromFatal(full)
-					t.Signature = sig
-					t.Detail = msg
-					path := replayPath(prop, sig)
-					_ = t.Save(path)
-					mu.Lock()
-					if _, ok := viols[sig]; !ok {
-						viols[sig] = vrec{sig, path, "worker process died (" + cls + ") while executing run " + strconv.Itoa(lastIdx), len(t.Ops)}
-					}
-					mu.Unlock()
-					start = lastIdx + W - w
-					continue
-				}
-				mu.Lock()
-				infra = append(infra, fmt.Sprintf("worker %d died before its first run: %v %s", w, err, msg))
-				mu.Unlock()
-				return
-			}
-		}(w)
+	// a second wave runs the same property from another binary (C17: the -race build)
+	waves := []struct {
+		bin      string
+		deadline time.Time
+		base     int
+	}{{self, deadline, 0}}
+	if rb := os.Getenv("VERIF_RACE_BIN"); rb != "" {
+		if _, err := os.Stat(rb); err == nil {
+			rsec := envInt("VERIF_RACE_SECONDS", sec/2+5)
+			waves = append(waves, struct {
+				bin      string
+				deadline time.Time
+				base     int
+			}{rb, deadline.Add(time.Duration(rsec) * time.Second), 10_000_000})
+		}
 	}
-	wg.Wait()
+	for wi, wave := range waves {
+		self := wave.bin
+		deadline := wave.deadline
+		if wi > 0 {
+			total.Faults["race-detector-wave"]++
+		}
+		var wg sync.WaitGroup
+		for w := 0; w < W; w++ {
+			wg.Add(1)
+			go func(w int) {
+				defer wg.Done()
+				start := wave.base
+				for attempt := 0; attempt < 50; attempt++ {
+					if time.Now().After(deadline) {
+						return
+					}
+					cmd := exec.Command(self, "worker", prop, tier, strconv.Itoa(w), strconv.Itoa(W), strconv.Itoa(start), strconv.FormatInt(deadline.Unix(), 10))
+					cmd.Env = append(os.Environ(), "GOMAXPROCS="+strconv.Itoa(envInt("VERIF_WORKER_PROCS", 2)), "GORACE=halt_on_error=1 exitcode=66")
+					stdout, _ := cmd.StdoutPipe()
+					var stderr strings.Builder
+					cmd.Stderr = &stderr
+					if err := cmd.Start(); err != nil {
+						mu.Lock()
+						infra = append(infra, "cannot start worker: "+err.Error())
+						mu.Unlock()
+						return
+					}
+					dec := json.NewDecoder(bufio.NewReaderSize(stdout, 1<<20))
+					lastIdx := -1
+					gotDone := false
+					hang := false
+					for {
+						var m wmsg
+						if err := dec.Decode(&m); err != nil {
+							break
+						}
+						switch m.T {
+						case "start":
+							lastIdx = m.Idx
+						case "viol":
+							mu.Lock()
+							if old, ok := viols[m.Sig]; !ok || m.Ops < old.ops {
+								viols[m.Sig] = vrec{m.Sig, m.Replay, m.Detail, m.Ops, self}
+							}
+							mu.Unlock()
+						case "hang":
+							hang = true
+							mu.Lock()
+							viols[m.Sig] = vrec{m.Sig, m.Replay, "run exceeded the per-run watchdog", 0, self}
+							mu.Unlock()
+						case "done":
+							gotDone = true
+							mu.Lock()
+							total.Runs += m.Runs
+							total.Evals += m.Evals
+							total.Steps += m.Steps
+							total.DevOps += m.DevOps
+							total.SimTime += m.SimTime
+							total.Shrinks += m.Shrinks
+							for k, v := range m.Faults {
+								total.Faults[k] += v
+							}
+							for k, v := range m.Probes {
+								total.Probes[k] += v
+							}
+							for k, v := range m.SigCnt {
+								total.SigCnt[k] += v
+							}
+							for _, h := range m.Hashes {
+								hashes[h] = struct{}{}
+							}
+							if len(total.Samples) < 5 {
+								total.Samples = append(total.Samples, m.Samples...)
+							}
+							mu.Unlock()
+						}
+					}
+					err := cmd.Wait()
+					// a worker that died could not remove its scratch directory
+					for _, base := range []string{"/dev/shm", "/var/tmp", os.Getenv("VERIF_SCRATCH")} {
+						if base != "" {
+							_ = os.RemoveAll(filepath.Join(base, fmt.Sprintf("dsim.%d", cmd.Process.Pid)))
+						}
+					}
+					if gotDone && !hang && err == nil {
+						return
+					}
+					if hang {
+						start = lastIdx + W - w
+						continue
+					}
+					// worker died: attribute to lastIdx
+					full := stderr.String()
+					msg := head(full, 1500) + "\n…\n" + tail(full, 500)
+					if lastIdx >= 0 {
+						seed := core.Mix(baseSeed(), core.HashStr(prop), uint64(lastIdx))
+						t := p.Gen(core.NewRng(seed), tier, lastIdx)
+						if mt := core.ReadCaseMarker(markerPath(prop, w)); mt != nil {
+							t = mt
+						}
+						t.Property, t.Seed, t.Tier = prop, seed, tier
+						cls := "killed"
+						if strings.Contains(full, "WARNING: DATA RACE") {
+							cls = "data-race"
+						} else if strings.Contains(full, "out of memory") || strings.Contains(full, "cannot allocate memory") {
+							cls = "oom"
+						} else if strings.Contains(full, "stack overflow") || strings.Contains(full, "goroutine stack exceeds") {
+							cls = "stack-overflow"
+						} else if strings.Contains(full, "fatal error") {
+							cls = "fatal"
+						}
+						sig := prop + ".process-death|" + cls + "|" + locusFromFatal(full)
+						if cls == "data-race" {
+							sig = prop + ".data-race|schedule|" + locusFromFatal(raceSummary(full))
+						}
+						t.Signature = sig
+						t.Detail = msg
+						path := replayPath(prop, sig)
+						_ = t.Save(path)
+						mu.Lock()
+						if _, ok := viols[sig]; !ok {
+							viols[sig] = vrec{sig, path, "worker process died (" + cls + ") while executing run " + strconv.Itoa(lastIdx) + "\n" + head(raceSummary(full), 1500), len(t.Ops), self}
+						}
+						mu.Unlock()
+						start = lastIdx + W - w
+						continue
+					}
+					mu.Lock()
+					infra = append(infra, fmt.Sprintf("worker %d died before its first run: %v %s", w, err, msg))
+					mu.Unlock()
+					return
+				}
+			}(w)
+		}
+		wg.Wait()
+	}
 
 	if len(infra) > 0 {
 		for _, s := range infra {
@@ -533,18 +562,18 @@ func runParent(prop, tier string) int {
 	knownSeen := []string{}
 	for _, s := range sigs {
 		v := viols[s]
-		cmd := exec.Command(self, "replay", v.replay)
-		cmd.Env = append(os.Environ(), "VERIF_REPLAY_CONFIRM=1")
+		cmd := exec.Command(v.bin, "replay", v.replay)
+		cmd.Env = append(os.Environ(), "VERIF_REPLAY_CONFIRM=1", "GORACE=halt_on_error=1 exitcode=66")
 		outb, err := cmd.CombinedOutput()
 		outs := string(outb)
 		confirmed := false
-		if strings.Contains(s, ".process-death|") {
+		if strings.Contains(s, ".process-death|") || strings.Contains(s, ".data-race|") {
 			// the replay itself dies: confirmed if the fresh process also failed abnormally
-			if ee, ok := err.(*exec.ExitError); ok && ee.ExitCode() != exitOK && ee.ExitCode() != exitViol || strings.Contains(outs, "fatal error") {
+			if ee, ok := err.(*exec.ExitError); ok && ee.ExitCode() != exitOK && ee.ExitCode() != exitViol || strings.Contains(outs, "fatal error") || strings.Contains(outs, "DATA RACE") {
 				confirmed = true
 			}
 		} else if strings.Contains(s, ".hang|") {
-			confirmed = confirmHang(self, v.replay)
+			confirmed = confirmHang(v.bin, v.replay)
 		} else {
 			confirmed = strings.Contains(outs, "REPLAY-SIGNATURE "+s+"\n")
 		}
@@ -625,10 +654,23 @@ func confirmHang(self, replay string) bool {
 	}
 }
 
+// raceSummary returns the first data race report of a race-detector output.
+func raceSummary(msg string) string {
+	i := strings.Index(msg, "WARNING: DATA RACE")
+	if i < 0 {
+		return msg
+	}
+	m := msg[i:]
+	if j := strings.Index(m, "=================="); j > 0 {
+		m = m[:j]
+	}
+	return m
+}
+
 func locusFromFatal(msg string) string {
 	for _, ln := range strings.Split(msg, "\n") {
 		ln = strings.TrimSpace(ln)
-		if strings.HasPrefix(ln, "github.com/diskfs/go-diskfs") {
+		if strings.HasPrefix(ln, "github.com/diskfs/go-diskfs") && !strings.Contains(ln, ".dsimLock") && !strings.Contains(ln, ".dsimUnlock") {
 			if i := strings.LastIndex(ln, "("); i > 0 {
 				ln = ln[:i]
 			}
